@@ -32,6 +32,11 @@ def main():
         jobs.append(("Skel", lambda: skeleton.render(REPO)))
     except ImportError:
         pass
+    try:
+        import funcs
+        jobs.append(("Funcs", lambda: funcs.render(REPO)))
+    except ImportError:
+        pass
     for name, fn in jobs:
         path = os.path.join(GEN, name + ".v")
         try:
